@@ -609,7 +609,16 @@ func (l *IPFSLog) Join(otherLog iface.IPFSLog, size int) (iface.IPFSLog, error) 
 		}
 	}
 
-	mergedHeads := entry.FindHeads(l.heads.Merge(otherHeads))
+	// the other log's heads are only candidates: a head of this log is one of its own entries,
+	// i.e. an entry that was checked above or earlier, never an object taken over from the other log
+	candidateHeads := entry.NewOrderedMap()
+	for _, k := range otherHeads.Keys() {
+		if own, ok := l.Entries.Get(k); ok {
+			candidateHeads.Set(k, own)
+		}
+	}
+
+	mergedHeads := entry.FindHeads(l.heads.Merge(candidateHeads))
 
 	for idx, e := range mergedHeads {
 		// notReferencedByNewItems
